@@ -269,6 +269,23 @@ def build_tree(base: str, where: str, bad_defs: str, helpers: bool):
             files[v + "/model.yml"] = big
         order = ["v0", "v1", "v2"] if where.endswith("first") else ["v1", "v2", "v0"]
         files["main/_package.yml"] = files["main/_package.yml"].replace("versions:\n  v0: ../v0\n", "versions:\n" + "".join("  %s: ../%s\n" % (v, v) for v in order))
+    elif where == "archived-import":
+        # a previous version kept as a snapshot of the whole source tree: its manifest spells its import exactly like the current package does (../lib),
+        # meaning the archived copy next to it - and that copy holds the violation
+        files["arch/v1/main/_package.yml"] = "namespace: Main\nimports:\n  - ../lib\n"
+        files["arch/v1/main/model.yml"] = VALID_MAIN
+        files["arch/v1/lib/_package.yml"] = "namespace: Lib\n"
+        files["arch/v1/lib/lib.yml"] = VALID_LIB + H + bad_defs
+        files["main/_package.yml"] = files["main/_package.yml"].replace("versions:\n  v0: ../v0\n", "versions:\n  v0: ../v0\n  v1: ../arch/v1/main\n")
+        bad_file = "arch/v1/lib/lib.yml"
+    elif where == "nested-import-same-spelling":
+        # the package imports ../lib and ../grp/mid; grp/mid also says ../lib, which from there is grp/lib - another package, holding the violation
+        files["grp/mid/_package.yml"] = "namespace: Mid\nimports:\n  - ../lib\n"
+        files["grp/mid/mid.yml"] = "MidRec: !record\n  fields:\n    m: int\n"
+        files["grp/lib/_package.yml"] = "namespace: GrpLib\n"
+        files["grp/lib/lib.yml"] = VALID_LIB + H + bad_defs
+        files["main/_package.yml"] = files["main/_package.yml"].replace("imports:\n  - ../lib\n", "imports:\n  - ../lib\n  - ../grp/mid\n")
+        bad_file = "grp/lib/lib.yml"
     elif where in DOC2:
         bad_file = DOC2[where]
     elif where in LINKED:
@@ -378,8 +395,10 @@ def run(ctx):
         for pos in POSITIONS:
             if rid == "stream-outside-step" and pos == "step":
                 continue   # a stream *is* legal as the type of a protocol step
-            for where in wheres + (list(LINKED) + list(DOC2) + ["version-multi-first", "version-multi-last"] if pos in ("field", "step") else []):
+            for where in wheres + (list(LINKED) + list(DOC2) + ["version-multi-first", "version-multi-last", "archived-import", "nested-import-same-spelling"] if pos in ("field", "step") else []):
                 if quick and where == "main2" and pos not in ("field", "step"):
+                    continue
+                if quick and where in ("archived-import", "nested-import-same-spelling") and (pos != "field" or ri % 2):
                     continue
                 if quick and (where in LINKED or where in DOC2 or where.startswith("version-multi")) and (pos != "field" or ri % 3):
                     continue
@@ -393,7 +412,7 @@ def run(ctx):
             continue
         if controls.get(rid) != "rejected":
             continue
-        for where in wheres + (["main-link", "main-doc2", "version-multi-first", "version-multi-last"] if "\n---\n" not in defs else []):
+        for where in wheres + (["main-link", "main-doc2", "version-multi-first", "version-multi-last", "archived-import", "nested-import-same-spelling"] if "\n---\n" not in defs else []):
             jobs.append(("inject", rid, named, defs, False, "def", where))
     for ni, (rid, named, defs) in enumerate(NAME_RULES):
         if controls.get(rid) != "rejected":
